@@ -1395,7 +1395,7 @@ def judge_c11(prog, recs):
 
 PROPS['C11'] = {
     'targets': ['props/C11.vo', 'props/C13.vo'],
-    'theorems': [('props.C11', n) for n in ['c11_reset_state', 'c11_follow_up', 'c11_registers_at_reset']] + [('props.C13', 'c13_every_operation')],
+    'theorems': [('props.C11', n) for n in ['c11_reset_state', 'c11_follow_up', 'c11_registers_at_reset', 'c11_failed_reset']] + [('props.C13', 'c13_every_operation')],
     'corr_gen': lambda api, rng, n: reset_programs(api, rng, n // 2),
     'corr_n': (300, 4000), 'monitor': mon_c11, 'monitor_n': (400, 10000), 'judge': judge_c11,
     'statement': 'for EVERY world (any history, any earlier failure, any fault plan): if soft_reset returns Ok its journal is [write 0x7E<-0xB6; read '
